@@ -65,6 +65,10 @@ CLAIMED = {
    "deterministic simulation through the rng seam: logging probe element generators (exact counts and element provenance for Vec / Bitstring / Plushy / nested / individual / population generators), all 16 conversion flavours constructed from empty and non-empty sources under seeded/adversarial streams (membership by pointer identity or value), plus seeded statistical decision of uniformity per flavour and length",
    "Exact clauses per run; uniformity is sampling evidence over 16 flavours x lengths 1..8.",
    "Trusted: the exact reference law computed in the check; statistical decisions use the Chernoff-KL rule with a total false-alarm budget of 1e-9 per invocation (fixed default seed => outcome is a fixed function of the code); biases below the resolution reported in the evidence are invisible."),
+ "C09": ("gen-shuttle + gen-miri + serial", "exploration", "DESIGN §5 C09",
+   "full deterministic simulation with fault injection: the unchanged generation.rs under (a) a seeded shuttle scheduler (random / PCT) over a rayon stand-in compiled in through a shadow manifest, (b) Miri's deterministic scheduler over the real rayon, (c) serial and real-thread runs; an instrumented child maker injects failures at enumerated positions and records population identity, fingerprints and the random words it is handed; invariants I1-I6 on every step",
+   "Seeded search over schedules x fault sets x population sizes x worker/job counts; fault positions are enumerated for n <= 8. One scenario = one schedule = one integer (shuttle) or one (argv, -Zmiri-seed) pair (Miri); both replay exactly. A clean batch is evidence, not proof.",
+   "Trusted: the rayon stand-in models rayon's documented behaviour (the Miri leg runs the real one, ~10^4x slower); shuttle is sequentially consistent; the invariants in sim/c09common/common.rs."),
 }
 
 NOT_APPLICABLE = {
@@ -79,6 +83,7 @@ ENGINES = [
  {"name": "simcore", "path": "sim/simcore", "serves_properties": sorted(CLAIMED), "kind_free_text": "seeded runner (one integer decides everything), SimRng owned random stream with boundary-word fault mode, minimiser, replay files, evidence writer, KL decision rule"},
  {"name": "vmsim", "path": "sim/checks/src/vmsim.rs", "serves_properties": ["C01", "C02", "C03"], "kind_free_text": "Push VM simulator: harness-stepped and real-loop execution of the real interpreter, resource-fault schedules, pushmodel reference interpreter (sim/checks/src/pushmodel.rs)"},
  {"name": "rngsim", "path": "sim/checks/src/bin", "serves_properties": ["C06", "C07", "C08", "C10", "C11", "C12", "C13", "C14", "C17", "C18"], "kind_free_text": "single calls / short histories of selectors, mutators, recombinators and generators driven by the owned SimRng stream with probe components; exact per-run oracles plus seeded statistical experiments"},
+ {"name": "gen-shuttle + gen-miri + serial", "path": "sim/c09shuttle, sim/rayon-shim, sim/ec-core-sim (shadow manifest), miri/c09miri, sim/checks/src/bin/c09.rs, tools/c09_legs.sh", "serves_properties": ["C09"], "kind_free_text": "Generation::par_next/serial_next under controlled schedulers: shuttle over a rayon stand-in, Miri over the real rayon; instrumented child maker with enumerated fault positions"},
  {"name": "ambient", "path": "sim/checks/src/bin/c16.rs", "serves_properties": ["C16"], "kind_free_text": "determinism sweep: forked streams, fresh threads, fresh processes, interleaved/concurrent histories, input-order permutations"},
  {"name": "stacksim", "path": "sim/checks/src/bin/c04.rs", "serves_properties": ["C04"], "kind_free_text": "operation-history simulator for Stack<T> against a Vec+capacity model"},
 ]
